@@ -184,11 +184,23 @@ impl Tier {
     }
     /// pick the per-tier size
     pub fn sz(self, quick: u64, thorough: u64) -> u64 {
-        match self {
+        let n = match self {
             Tier::Quick => quick,
             Tier::Thorough => thorough,
+        };
+        // sanitizer legs (Miri, ASan) run the same workloads at 1/VERIF_SCALE_DIV of the size
+        match scale_div() {
+            1 => n,
+            d => (n / d).max(1),
         }
     }
+}
+
+/// divisor applied to every workload size (1 unless a sanitizer leg sets VERIF_SCALE_DIV); with a
+/// divisor the floors on held cases / cells do not apply and the run only reports violations
+pub fn scale_div() -> u64 {
+    static D: std::sync::OnceLock<u64> = std::sync::OnceLock::new();
+    *D.get_or_init(|| std::env::var("VERIF_SCALE_DIV").ok().and_then(|s| s.parse().ok()).filter(|d| *d >= 1).unwrap_or(1))
 }
 
 #[derive(Clone, Debug, Default)]
@@ -366,7 +378,7 @@ pub fn finish(ctx: &RunCtx, meta: &CheckMeta, report: &Report) -> i32 {
             (k.clone(), json!({"distinct": v.len(), "examples": v.iter().take(40).collect::<Vec<_>>()}))
         })
         .collect();
-    let enough = report.held >= meta.min_held && (report.cells.len() as u64) >= meta.min_cells;
+    let enough = scale_div() > 1 || (report.held >= meta.min_held && (report.cells.len() as u64) >= meta.min_cells);
     let mut samples = report.samples.clone();
     if samples.is_empty() {
         samples.push(json!({"note": "no sample recorded"}));
